@@ -1,0 +1,66 @@
+// Copyright 2025 UnoDB contributors
+#ifndef UNODB_DETAIL_VERIF_HOOKS_HPP
+#define UNODB_DETAIL_VERIF_HOOKS_HPP
+
+/// \file
+/// Verification hooks.
+///
+/// When `UNODB_DETAIL_VERIF_HOOKS` is defined, every shared-memory access of
+/// the OLC protocol and of QSBR, every spin-wait loop body, and every heap
+/// allocation and deallocation calls out to a function that the embedding
+/// verification harness must define. The call is always placed immediately
+/// before the access it announces. When the macro is not defined, everything
+/// in this header expands to nothing.
+
+#ifdef UNODB_DETAIL_VERIF_HOOKS
+
+#include <cstddef>
+#include <cstdint>
+#include <cstring>
+
+extern "C" {
+void unodb_verif_point(unsigned kind, const volatile void* addr, unsigned size,
+                       std::uint64_t new_value) noexcept;
+void unodb_verif_spin() noexcept;
+void unodb_verif_alloc(void* ptr, std::size_t size) noexcept;
+void unodb_verif_free(void* ptr) noexcept;
+}
+
+namespace unodb::detail {
+
+inline constexpr unsigned verif_lock_load = 0;
+inline constexpr unsigned verif_lock_cas = 1;
+inline constexpr unsigned verif_lock_store = 2;
+inline constexpr unsigned verif_data_load = 3;
+inline constexpr unsigned verif_data_store = 4;
+inline constexpr unsigned verif_qsbr_load = 5;
+inline constexpr unsigned verif_qsbr_rmw = 6;
+inline constexpr unsigned verif_qsbr_store = 7;
+
+template <typename T>
+[[nodiscard]] inline std::uint64_t verif_to_u64(const T& value) noexcept {
+  std::uint64_t result{0};
+  std::memcpy(&result, &value,
+              sizeof(T) < sizeof(result) ? sizeof(T) : sizeof(result));
+  return result;
+}
+
+}  // namespace unodb::detail
+
+#define UNODB_DETAIL_VERIF_POINT(kind, addr, size, new_value)               \
+  ::unodb_verif_point((kind), (addr), static_cast<unsigned>(size),          \
+                      (new_value))
+#define UNODB_DETAIL_VERIF_SPIN() ::unodb_verif_spin()
+#define UNODB_DETAIL_VERIF_ALLOC(ptr, size) ::unodb_verif_alloc((ptr), (size))
+#define UNODB_DETAIL_VERIF_FREE(ptr) ::unodb_verif_free((ptr))
+
+#else  // UNODB_DETAIL_VERIF_HOOKS
+
+#define UNODB_DETAIL_VERIF_POINT(kind, addr, size, new_value) ((void)0)
+#define UNODB_DETAIL_VERIF_SPIN() ((void)0)
+#define UNODB_DETAIL_VERIF_ALLOC(ptr, size) ((void)0)
+#define UNODB_DETAIL_VERIF_FREE(ptr) ((void)0)
+
+#endif  // UNODB_DETAIL_VERIF_HOOKS
+
+#endif  // UNODB_DETAIL_VERIF_HOOKS_HPP
